@@ -283,3 +283,9 @@ async def started_phases_are_always_finished(fail: bool, ready: bool, connect_ph
     else:
         ensures("located-state", m._spa_state is S.LOCATED_SPAS)
     cover("failing-connect", both(connect_phase, fail))
+
+
+# the automatic recovery reset runs on a task of the connection it tears down (shared with C10)
+from contracts import c10_leaks
+harness(prop="C08", target="geckolib.async_spa_manager:GeckoAsyncSpaMan.async_reset",
+        name="recovery_reset_lands_in_idle_despite_self_cancellation")(c10_leaks.recovery_reset_survives_its_own_cancellation)
